@@ -100,7 +100,15 @@ func (e *Exec) ev(x ast.Expr) Val {
 				}
 			}
 		}
-		return FuncV{Lit: x, Pkg: e.pkg, Owner: e.frame()}
+		fv := FuncV{Lit: x, Pkg: e.pkg, Owner: e.frame()}
+		if k, ok := e.litOrd[x]; ok {
+			// closure(k) in specs: the value this literal evaluated to (a non-nil reference distinct from every
+			// function value the program did not create here)
+			fv.ID = e.fresh(fmt.Sprintf("fnlit%d", k), SInt)
+			e.addFact(sx(">", fv.ID, "0"))
+			e.st.vars[fmt.Sprintf("closureval:%d", k)] = iv(fv.ID)
+		}
+		return fv
 	case *ast.TypeAssertExpr:
 		v := e.ev(x.X)
 		if x.Type == nil {
